@@ -87,6 +87,12 @@ func c05SpecAccept(wire []byte, rx c05Rx) bool {
 var c05Refused func()
 
 func runC05(c *core.Ctx) {
+	var sess struct {
+		on, up, v11 bool
+		k           c05Keys
+		addr        [4]byte
+		fcnt        uint32
+	}
 	var prevFCtrl lorawan.FCtrl
 	havePrevFCtrl := false
 	n := c.N(3000, 400000)
@@ -151,6 +157,17 @@ func runC05(c *core.Ctx) {
 		if !v11 {
 			k.enc, k.sInt = k.fInt, k.fInt
 		}
+		// sessions: consecutive frames of one device - same keys, same address, the counter going up by
+		// one from frame to frame (across the 16-bit roll-over too) - as opposed to unrelated frames
+		if sess.on && sess.up == up && i%3 != 0 {
+			k, v11 = sess.k, sess.v11
+			d.Spec.DevAddr = sess.addr
+			d.Spec.FCnt = sess.fcnt + 1
+			c.Count("exchanges.continuing-a-session", 1)
+		} else if r.Chance(1, 3) {
+			d.Spec.FCnt = []uint32{0, 0xfffd, 0x1fffd, 0xfffffffd, d.Spec.FCnt}[r.Intn(5)]
+		}
+		sess.on, sess.up, sess.k, sess.v11, sess.addr, sess.fcnt = true, up, k, v11, d.Spec.DevAddr, d.Spec.FCnt
 		conf, txDR, txCh := r.U32Edge(), r.Byte(), r.Byte()
 		where := "app"
 		if len(d.Spec.FOpts) > 0 {
